@@ -1,11 +1,22 @@
 /-
   C03 — utility methods report the value of their defining formula.
+  Property theorems only; helper lemmas live in Rdm/Lemmas/Utility*.lean and Rdm/Lemmas/RankingRound.lean.
+  Arithmetic facts are over the `Rat` instance of the model.
 -/
 import Rdm.Model.Utility
 import Rdm.Spec.C03
 import Rdm.Lemmas.NumRat
+import Rdm.Lemmas.RankingRound
+import Rdm.Lemmas.UtilityWs
+import Rdm.Lemmas.UtilityOwa
+import Rdm.Lemmas.UtilityKeys
+import Rdm.Lemmas.UtilityParse
+import Rdm.Lemmas.UtilityChoquet
+import Rdm.Lemmas.UtilityCapacities
 namespace Rdm.Props.C03
 open Rdm
+
+/-! ### weighted sum -/
 
 def cexAlt : Alt Rat := ⟨"a", [("c", 200), ("g", 10)]⟩
 def cexWeights : List (WCrit Rat) := [⟨⟨"c", "cost", none⟩, 1⟩, ⟨⟨"g", "gain", none⟩, 2⟩]
@@ -16,5 +27,146 @@ def cexWeights : List (WCrit Rat) := [⟨⟨"c", "cost", none⟩, 1⟩, ⟨⟨"g
 theorem ws_counterexample :
     (weightedSum cexAlt cexWeights).toOption = some (-190) ∧ Spec.C03.wsSpec cexAlt cexWeights = some (-180) := by
   decide +kernel
+
+/- Full statement (FALSE for the code, see `ws_counterexample`):
+     theorem ws_value (a : Alt Rat) (wc : List (WCrit Rat)) :
+       (weightedSum a wc).toOption = Spec.C03.wsSpec a wc
+   What holds instead: -/
+
+/-- the model's weighted sum is the plain sum of the signed criterion values (weights unused), for every
+    number type; it fails exactly when a value is missing -/
+theorem ws_value_partial {α : Type} [Num α] (a : Alt α) (wc : List (WCrit α)) :
+    weightedSum a wc
+      = (wc.mapM fun c => a.signed c.crit).map (fun vs => vs.foldl (· + ·) Num.zero) :=
+  foldlM_signed a wc Num.zero
+
+/-- … which is the defining formula Σ w·(±v) whenever every weight is 1 -/
+theorem ws_value_unit_weights_partial (a : Alt Rat) (wc : List (WCrit Rat)) (hw : ∀ c ∈ wc, c.w = 1) :
+    (weightedSum a wc).toOption = Spec.C03.wsSpec a wc :=
+  ws_foldlM_spec a wc hw 0
+
+example : (weightedSum cexAlt [⟨⟨"c", "cost", none⟩, 1⟩, ⟨⟨"g", "gain", none⟩, 1⟩]).toOption
+    = Spec.C03.wsSpec cexAlt [⟨⟨"c", "cost", none⟩, 1⟩, ⟨⟨"g", "gain", none⟩, 1⟩] :=
+  ws_value_unit_weights_partial _ _ (by decide)
+
+/-! ### OWA -/
+
+/-- OWA = Σ ascending weights × ascending values, whenever the alternative has as many values as there
+    are weights (otherwise the code panics and the model returns an error) -/
+theorem owa_eq_spec (a : Alt Rat) (wc : List (WCrit Rat)) (h : a.vals.length = wc.length) :
+    owa a wc = .ok (Spec.C03.owaSpec (a.vals.map (·.2)) (wc.map (·.w))) :=
+  owa_eq_owaSpec a wc h
+
+example : owa cexAlt cexWeights = .ok (Spec.C03.owaSpec [200, 10] [1, 2]) := owa_eq_spec _ _ rfl
+
+/-- OWA depends neither on the order of the alternative's value map (Go map iteration order) nor on the
+    order of the weights list: permuting either leaves the result (value or error) unchanged -/
+theorem owa_perm_invariant (a a' : Alt Rat) (wc wc' : List (WCrit Rat))
+    (hv : a.vals.Perm a'.vals) (hw : wc.Perm wc') : owa a wc = owa a' wc' :=
+  owa_perm_eq a a' wc wc' hv hw
+
+/-! ### Choquet integral: parsing -/
+
+/-- capacity keys are canonical: `"b,a"` and `"a,b"` (any permutation of the ids) give the same key -/
+theorem criterionKey_perm {l₁ l₂ : List String} (h : l₁.Perm l₂) : criterionKey l₁ = criterionKey l₂ :=
+  criterionKey_perm_eq h
+
+/-- `parse` accepts gain criteria only -/
+theorem choquetParse_gain_only {α : Type} [Num α] (crits : List (Crit α)) (w r : KMap α)
+    (h : choquetParse crits w = .ok r) : ∀ c ∈ crits, c.type = "gain" :=
+  (choquetParse_ok crits w r h).1
+
+/-- `parse` accepts only capacities in [0,1] -/
+theorem choquetParse_range (crits : List (Crit Rat)) (w r : KMap Rat)
+    (h : choquetParse crits w = .ok r) : ∀ kv ∈ r, 0 ≤ kv.2 ∧ kv.2 ≤ 1 := by
+  intro kv hkv
+  obtain ⟨_, h1, h2⟩ := (choquetParse_ok crits w r h).2.1 kv hkv
+  exact ⟨Rat.not_lt.mp h1, Rat.not_lt.mp h2⟩
+
+/-- the parsed table is the input re-keyed canonically, without two entries for the same set, made of
+    declared criteria only, and it holds a capacity for every non-empty subset of the criteria -/
+theorem choquetParse_canonical {α : Type} [Num α] (crits : List (Crit α)) (w r : KMap α)
+    (h : choquetParse crits w = .ok r) :
+    r = canonTable w ∧ r.keys.Nodup ∧
+    (∀ kv ∈ r, ∀ p ∈ splitKey kv.1, p ∈ crits.map (·.id)) ∧
+    (∀ s ∈ powerSet (crits.map (·.id)), ∃ v, r.get? (criterionKey s) = some v) := by
+  obtain ⟨_, h2, h3, h4, h5⟩ := choquetParse_ok crits w r h
+  refine ⟨h4, h5, ?_, h3⟩
+  intro kv hkv p hp
+  have := (h2 kv hkv).1
+  rw [List.all_eq_true] at this
+  simpa using this p hp
+
+/-- `PowerSet` really is the set of all non-empty subsets (as sub-lists in declaration order) -/
+theorem powerSet_complete (l s : List String) (hne : s ≠ []) (h : s.Sublist l) : s ∈ powerSet l :=
+  mem_powerSet_of_sublist l s hne h
+
+/-! ### Choquet integral: value -/
+
+/-- in general (values within `eps` of the first value of a run are tied with it — the oracle the property
+    prescribes) the model's value is the spec's grouped textbook sum; a missing capacity is an error on
+    both sides -/
+theorem choquet_eq_spec (eps : Rat) (a : Alt Rat) (w : KMap Rat) :
+    (choquetValue eps a w).toOption = Spec.C03.choquetSpec eps a w :=
+  choquetValue_eq_spec eps a w
+
+/-- when the values are pairwise either exactly equal or more than `eps` apart and every capacity of a
+    tail set {(k),…,(n)} is present, the value is the ungrouped textbook sum
+    Σ_k (v_(k) − v_(k−1)) · μ({(k),…,(n)}), v_(0) = 0 (this covers the all-distinct case) -/
+theorem choquet_eq_textbook_of_capacities (eps : Rat) (a : Alt Rat) (w : KMap Rat)
+    (hties : ∀ x ∈ a.vals, ∀ y ∈ a.vals, Spec.C03.rabs (x.2 - y.2) ≤ eps → x.2 = y.2)
+    (hfull : ∀ n < (ascendingVals a).length,
+      (w.get? (criterionKey (((ascendingVals a).drop n).map (·.1)))).isSome = true) :
+    (choquetValue eps a w).toOption = choquetTextbook (fun s => w.get? (criterionKey s)) (ascendingVals a) 0 := by
+  have hmem : ∀ x, x ∈ ascendingVals a → x ∈ a.vals := fun x hx => (List.mergeSort_perm _ _).mem_iff.mp hx
+  rw [choquetValue_eq_spec]
+  unfold Spec.C03.choquetSpec
+  have hmu : (fun s => w.get? (Spec.C03.canonKey s)) = (fun s => w.get? (criterionKey s)) := by
+    funext s; rw [spec_canonKey_eq]
+  rw [hmu]
+  exact choquetSpecAux_eq_textbook eps _ _ (ascendingVals a) 0 (Nat.lt_succ_self _)
+    (fun x hx y hy => hties x (hmem x hx) y (hmem y hy))
+    (fun s hs hne => by
+      have hlen := hs.length_le
+      have hpos : 0 < s.length := List.length_pos_iff.mpr hne
+      rw [List.suffix_iff_eq_drop.mp hs]
+      exact hfull _ (by omega))
+
+def exAlt : Alt Rat := ⟨"a", [("g1", 1), ("g2", 3), ("g3", 3)]⟩
+def exCap : KMap Rat :=
+  [("g1", 1/4), ("g2", 1/2), ("g3", 1/4), ("g1,g2", 3/4), ("g1,g3", 1/2), ("g2,g3", 3/4), ("g1,g2,g3", 1)]
+
+/-- hypotheses satisfiable on a non-trivial input: three criteria, one exact tie, full capacity table -/
+example : (choquetValue (1/100000) exAlt exCap).toOption
+    = choquetTextbook (fun s => exCap.get? (criterionKey s)) (ascendingVals exAlt) 0 := by
+  have hasc : ascendingVals exAlt = exAlt.vals := List.mergeSort_of_pairwise (by decide +kernel)
+  refine choquet_eq_textbook_of_capacities _ exAlt exCap (by decide +kernel) ?_
+  rw [hasc]
+  decide +kernel
+
+/-- **Choquet = textbook after parsing**: if `parse` accepted the capacities for duplicate-free criteria and
+    the alternative is valued on declared criteria (each once), with values pairwise exactly equal or more
+    than `eps` apart, then the value exists and is the textbook Choquet integral -/
+theorem choquet_eq_textbook (eps : Rat) (crits : List (Crit Rat)) (w r : KMap Rat) (a : Alt Rat)
+    (hparse : choquetParse crits w = .ok r) (hn : (crits.map (·.id)).Nodup)
+    (hk : (a.vals.map (·.1)).Nodup) (hsub : ∀ k ∈ a.vals.map (·.1), k ∈ crits.map (·.id))
+    (hties : ∀ x ∈ a.vals, ∀ y ∈ a.vals, Spec.C03.rabs (x.2 - y.2) ≤ eps → x.2 = y.2) :
+    (choquetValue eps a r).toOption = choquetTextbook (fun s => r.get? (criterionKey s)) (ascendingVals a) 0 ∧
+    ((choquetValue eps a r).toOption).isSome = true :=
+  choquetValue_eq_textbook eps crits w r a hparse hn hk hsub hties
+
+/- `String.splitOn` does not reduce in the kernel, so a concrete non-empty `hparse` cannot be produced by
+   evaluation inside a proof; the driver evaluates e.g.
+   `choquetParse [g1, g2] [("g1",1/4), ("g2,g1",1), ("g2",1/2)] = ok [("g1",1/4), ("g1,g2",1), ("g2",1/2)]`.
+   The degenerate instance shows the hypotheses are consistent: -/
+example : (choquetValue (1/100000) (⟨"a", []⟩ : Alt Rat) []).toOption
+      = choquetTextbook (fun s => KMap.get? ([] : KMap Rat) (criterionKey s)) (ascendingVals ⟨"a", []⟩) 0 ∧
+    ((choquetValue (1/100000) (⟨"a", []⟩ : Alt Rat) []).toOption).isSome = true :=
+  choquet_eq_textbook (1/100000) [] [] [] ⟨"a", []⟩ rfl (by simp) (by simp) (by simp) (by simp)
+
+/-! ### rounding -/
+
+/-- the 1e-8 rounding the API applies moves the reported value by at most 5·10⁻⁹ -/
+theorem rounding_error (x : Rat) : |round8 x - x| ≤ 1 / (2 * 10 ^ 8) := round8_error x
 
 end Rdm.Props.C03
